@@ -247,7 +247,9 @@ Fixpoint augment_node (ovr : bool) (n : node) (c : cmd) {struct n} : cmd :=
   | NFlatten _ gid body =>
       augment_nodes ovr body (c <| c_groups := c_groups c ++ [struct_group gid body] |>)
   | NSub opt vs =>
-      let c := augment_variants ovr vs c in
+      (* args::gen_augment always calls [augment_subcommands], never [.._for_update]: below a
+         subcommand field the arguments keep their requiredness in the update command too *)
+      let c := augment_variants false vs c in
       let c := if opt then c else set_sub_required true c in
       if ovr then set_sub_required false c else c
   end
@@ -694,10 +696,7 @@ Fixpoint print_node (n : node) (v : dval) {struct n} : option printed :=
       match v with
       | DOptStruct (Some fs) =>
           match print_nodes body fs with
-          | Some p => match group_entry gid body (p_entries p) with
-                      | [] => None                      (* parses back as None *)
-                      | ge => Some (p <| p_entries := p_entries p ++ ge |>)
-                      end
+          | Some p => Some (p <| p_entries := p_entries p ++ group_entry gid body (p_entries p) |>)
           | None => None end
       | DOptStruct None => absent_nodes body
       | _ => None
